@@ -720,8 +720,8 @@ func (p *Program) ReturnTerms(fn *ssa.Function) [][]*Term {
 		}
 		if r, ok := b.Instrs[len(b.Instrs)-1].(*ssa.Return); ok {
 			var ts []*Term
-			for _, x := range r.Results {
-				ts = append(ts, p.TermOf(x))
+			for i := range r.Results {
+				ts = append(ts, p.TermOf(RetVal(r, i)))
 			}
 			out = append(out, ts)
 		}
@@ -785,4 +785,26 @@ func (p *Program) Inline(t *Term, depth int) *Term {
 // local whose address is passed), falling back to the value's own term.
 func (p *Program) PointeeTerm(v ssa.Value) *Term {
 	return p.addrBaseTerm(v, map[ssa.Value]bool{}, 0)
+}
+
+// RetVal resolves result #i of a return: when results are kept in memory
+// (functions with defers: `*res = v; rundefers; t = *res; return t`) it is
+// the value last stored into the result cell in the returning block.
+func RetVal(r *ssa.Return, i int) ssa.Value {
+	v := r.Results[i]
+	u, ok := v.(*ssa.UnOp)
+	if !ok || u.Op != token.MUL {
+		return v
+	}
+	cell, ok := u.X.(*ssa.Alloc)
+	if !ok {
+		return v
+	}
+	b := r.Block()
+	for k := len(b.Instrs) - 1; k >= 0; k-- {
+		if st, ok := b.Instrs[k].(*ssa.Store); ok && st.Addr == cell {
+			return st.Val
+		}
+	}
+	return v
 }
